@@ -6,6 +6,7 @@ package emu
 import (
 	verif "github.com/sarchlab/mgpusim/v4/zzverif"
 	rm "github.com/sarchlab/mgpusim/v4/zzverif/regmodel"
+	"github.com/sarchlab/mgpusim/v4/zzverif/abimodel"
 )
 
 // zzvState builds a wavefront with symbolic register contents and the
@@ -93,4 +94,16 @@ func VerifRegRead() {
 	wf, m := zzvState(k, idx, rm.Width(k, cnt), lane)
 	rm.DoRead(wf, m, k, idx, cnt, lane)
 	zzvCheckState(wf, m, lane, "a read of "+rm.Tag(k, cnt))
+}
+
+// VerifInitWfRegs (C08/C02): emulation-mode register initialisation at dispatch
+// against the ABI model (zzverif/abimodel).
+func VerifInitWfRegs() {
+	c := abimodel.NewCase(verif.Param("queuePtr", 0) == 1)
+	wf := NewWavefront(c.WF)
+	cu := &ComputeUnit{}
+	cu.initWfRegs(wf)
+	c.Check(wf.PC(), wf.EXEC(),
+		func(i int) uint32 { return rm.LE32(wf.SRegFile[4*i:]) },
+		func(lane, i int) uint32 { return rm.LE32(wf.VRegFile[lane*1024+4*i:]) }, "emu")
 }
